@@ -352,6 +352,16 @@ impl RecordSet {
             //   everything under it (via DNAME).
             RecordType::CNAME | RecordType::ANAME => {
                 assert!(self.records.len() <= 1);
+
+                // replacing the record with an identical one is not an update
+                if self
+                    .records
+                    .first()
+                    .is_some_and(|rr| *rr == record && rr.ttl == record.ttl)
+                {
+                    return false;
+                }
+
                 self.records.clear();
             }
             _ => (),
